@@ -7,6 +7,8 @@ CONFIGS = [
     ("fw16", 16, False, True), ("fw17-500", 17, False, False), ("fw18", 18, False, True), ("fw20-500", 20, False, False),
     ("fw21", 21, False, True), ("fw32", 32, False, True), ("fw32-500", 32, False, False), ("fw24", 24, False, True),
     ("micro800", 12, True, False), ("micro800-4000", 12, True, True),
+    # current Micro850/870 firmware reports major revision 21/22: still no symbol-instance addressing, no multi-service packets
+    ("micro800-fw21", 21, True, False), ("micro800-fw22-4000", 22, True, True),
 ]
 
 
